@@ -46,6 +46,8 @@ def programs(tier):
         '10 Z = JOYSTK ( 0 ) + BUTTON ( 1 )',
         '10 A$ = INKEY$ : IF A$ = "" THEN 10',
         "10 DATA \"A\x0bB\" , C\x1cD\n20 READ A$ , B$",
+        '10 DIM A$ : A$ = "X" : PRINT A$',
+        '10 DIM N$ , M$ ( 3 ) : N$ = "A" : M$ ( 1 ) = N$ : B$ = N$ + M$ ( 1 )',
     ]
     return progs
 
@@ -77,6 +79,55 @@ def norm_sizes(text):
     t = re.sub(r":\s*STRING\[\d+\]", "", text)
     t = "\n".join(ln for ln in t.split("\n") if not re.match(r"^DIM \w+\$$", ln.strip()))
     return t
+
+
+def duplicate_decls(text):
+    """identifiers declared more than once (reference BASIC09 loader)"""
+    from vf.props.c10 import collect_decls
+    from vf.tv import b09front
+    from vf.tv.lex import SyntaxErr
+
+    try:
+        stmts = b09front.parse_program(text)
+    except SyntaxErr:
+        return set()
+    decls, problems = {}, []
+    collect_decls(stmts, decls, [0], problems)
+    return {key for kind, key in problems}
+
+
+def file_path(ctx):
+    """convert_file writes exactly convert(...) with LF -> CR, whatever the content of literals, comments and DATA items"""
+    import io
+
+    from coco.b09 import compiler
+
+    ctx.encode("compiler.convert_file (executed on in-memory files)", repo_source("coco/b09/compiler.py"))
+    specials = ["\x0c", "\x0b", "\x1c", "\x1d", "\x1e", "\x85", "\u2028", "\u2029", "\t", "\x7f"]
+    progs = ['10 PRINT "HI"\n20 GOTO 10\n', "10 REM X\n", "10 CLS : SOUND 1 , 2\n"]
+    for ch in specials:
+        progs += [f'10 PRINT "PAGE{ch}TWO"\n20 A = 1\n', f"10 REM A{ch}B\n20 A = 1\n", f"10 DATA X{ch}Y , 2\n20 READ A$ , B\n", f'10 A$ = HEX$ ( 1 ) + "P{ch}Q"\n']
+    for src in progs:
+        for kw in (dict(), dict(output_dependencies=True, procname="prog"), dict(initialize_vars=True, filter_unused_linenum=True, default_str_storage=40)):
+            ctx.stats["programs"] += 1
+            ctx.stats["obligations"] += 1
+            try:
+                want = compiler.convert(src, **kw).replace("\n", "\r")
+            except Exception:  # noqa: BLE001 - refusals are C15's subject
+                ctx.stats["identity"] += 1
+                continue
+            out = io.StringIO()
+            try:
+                compiler.convert_file(io.StringIO(src), out, **kw)
+                got = out.getvalue()
+            except Exception as e:  # noqa: BLE001
+                got = f"<{type(e).__name__}>"
+            if got == want:
+                ctx.stats["identity"] += 1
+            else:
+                cls = "control-char-in-content" if any(c in src for c in specials) else "plain"
+                i = next((k for k, (x, y) in enumerate(zip(got, want)) if x != y), min(len(got), len(want)))
+                ctx.violation(f"convert_file:differs-from-convert:{cls}:{sorted(kw)[:1]}", f"{src!r} {kw}: file text differs from convert() with CR line ends at offset {i}: {got[max(0, i - 10):i + 10]!r} vs {want[max(0, i - 10):i + 10]!r}", {"source": src, "options": kw})
 
 
 def check_one(src):
@@ -156,6 +207,9 @@ def check_one(src):
         if norm_sizes(o[1]) != norm_sizes(B):
             sig("strsize:text", "outputs differ beyond STRING[n] sizes")
         semantic(B, o[1], "strsize")
+        dup_b, dup_o = duplicate_decls(B), duplicate_decls(o[1])
+        if dup_o - dup_b:
+            sig("strsize:duplicate-decl", f"with default_str_storage=40 these identifiers are declared twice: {sorted(dup_o - dup_b)}")
     # 6. options that must not interact: suffix and prefix
     o = conv(add_suffix=False)
     out["pairs"] += 1
@@ -267,6 +321,7 @@ def run(tier):
     for r in results[:: max(1, len(results) // 6)]:
         ctx.sample({"source": r["src"], "status": r.get("status"), "pairs": r["pairs"]})
     cli(ctx)
+    file_path(ctx)
     ctx.add_solver_stats(smt.STATS.export())
     ctx.extra["solver"] = {"z3": smt.z3_version()}
     ctx.explanation = "programs counts converted outputs (base + one per option); the behavioural comparisons are z3-decided leaf-pair obligations"
